@@ -154,7 +154,9 @@ func (uconn *UConn) buildHandshakeState(loadSession bool) error {
 		}
 
 		if loadSession {
-			uconn.uApplyPatch()
+			if err = uconn.uApplyPatch(); err != nil {
+				return err
+			}
 			uconn.sessionController.finalCheck()
 			uconn.clientHelloBuildStatus = BuildByUtls
 		}
@@ -192,13 +194,16 @@ func (uconn *UConn) uLoadSession() error {
 	return nil
 }
 
-func (uconn *UConn) uApplyPatch() {
+func (uconn *UConn) uApplyPatch() error {
 	helloLen := len(uconn.HandshakeState.Hello.Raw)
 	if uconn.sessionController.shouldUpdateBinders() {
-		uconn.sessionController.updateBinders()
+		if err := uconn.sessionController.updateBinders(); err != nil {
+			return err
+		}
 		uconn.sessionController.setPskToUConn()
 	}
 	uAssert(helloLen == len(uconn.HandshakeState.Hello.Raw), "tls: uApplyPatch Failed: the patch should never change the length of the marshaled clientHello")
+	return nil
 }
 
 func (uconn *UConn) DidTls12Resume() bool {
